@@ -205,6 +205,48 @@ let handle (a : string array) : string =
       done;
       let fin = live_after !live (free_events !d) in
       String.concat " " (List.rev !out) ^ " free=OK live=" ^ hex_of_n fin
+  | "MTU" ->
+      (* MTU <12 structure sizes> n sched op op ... : ownership history of one ZSTDMT_CCtx with allocation failures (round 3);
+         per op rc/nbWorkers/jobs/bufTotal/cctxTotal/seqTotal/live/sizeof ('!' after sizeof: the expression used before fix
+         eb053f6 dereferences NULL in this state) *)
+      let zn i = n_of_hex a.(i) in
+      let z = { z_mtctx = zn 1; z_job = zn 2; z_bufpool = zn 3; z_buffer = zn 4; z_cctxpool = zn 5; z_ptr = zn 6; z_cctx = zn 7;
+                z_pool = zn 8; z_pooljob = zn 9; z_thread = zn 10; z_ldmEntry = zn 11; z_maxWorkers = zn 12 } in
+      let sched s = if s = "-" then [] else List.init (String.length s) (fun i -> s.[i] <> '0') in
+      let ((r, e0), _) = mt_create z (n_of_hex a.(13)) (sched a.(14)) in
+      let live = ref (live_after N0 e0) in
+      (match r with
+       | None -> "NULL live=" ^ hex_of_n !live
+       | Some s0 ->
+         let st = ref s0 in
+         let tot p = match p with Some q -> hex_of_n q.p_total | None -> "N" in
+         let show rc =
+           let s = !st in
+           rc ^ "/" ^ hex_of_n s.mt_nbw ^ "/" ^ (match s.mt_jobs with Some j -> hex_of_n j | None -> "N") ^ "/" ^ tot s.mt_buf ^ "/" ^ tot s.mt_cctx
+           ^ "/" ^ tot s.mt_seq ^ "/" ^ hex_of_n !live ^ "/" ^ hex_of_n (mt_sizeof z s) ^ (match mt_sizeof_old z s with None -> "!" | Some _ -> "") in
+         let out = ref [show "K"] in
+         for i = 15 to Array.length a - 1 do
+           let t = a.(i) in
+           let rest = String.sub t 1 (String.length t - 1) in
+           let (x, y) = match String.split_on_char '/' rest with [x; y] -> (x, y) | [x] -> (x, "-") | x :: y :: _ -> (x, y) | [] -> failwith "bad op" in
+           let okc k = not (String.length y > k && y.[k] = '0') in
+           let op = match t.[0] with
+             | 'S' -> MStart (n_of_hex x, sched y)
+             | 'G' -> MGetBuf (n_of_hex x, okc 0)
+             | 'F' -> let rec nat_of k = if k <= 0 then O else S (nat_of (k - 1)) in MFlush (nat_of (int_of_string ("0x" ^ x)))
+             | 'Q' -> MSeqUse (n_of_hex x, okc 0)
+             | 'C' -> MCtxUse ((if x = "-" then None else Some (n_of_hex x)), okc 0, okc 1)
+             | 'I' -> (match String.split_on_char '/' rest with
+                       | [n; sc; d; rb; hl; bl] ->
+                         MInit (n_of_hex n, sched sc, (if d = "-" then None else Some (n_of_hex d)), n_of_hex rb,
+                                (if hl = "0" then None else Some (n_of_hex hl, n_of_hex bl)))
+                       | _ -> failwith "bad I op")
+             | _ -> failwith ("bad op " ^ t) in
+           let ((s1, rc), es) = mt_step z !st op in
+           st := s1; live := live_after !live es;
+           out := show (match rc with MOk -> "K" | MMem -> "M" | MSkip -> "S") :: !out
+         done;
+         String.concat " " (List.rev !out) ^ " end=" ^ hex_of_n (live_after !live (mt_free_events z !st)))
   | s -> failwith ("unknown case kind " ^ s)
 
 let () =
